@@ -180,13 +180,23 @@ func TestPeriodsExhaustive(t *testing.T) {
 	lib.Ev.Exhaustive("periods{unbounded,0..5}x{0,1,999999999}", done)
 }
 
+var boundarySeconds = func() []int64 {
+	out := []int64{math.MinInt64, math.MinInt64 + 1, -1, 0, 1, math.MaxInt64 - 1, math.MaxInt64, math.MaxInt32, math.MinInt32,
+		-62135596800, 253402300799, math.MaxInt64 - 62135596800, math.MaxInt64 - 62135596800 + 1}
+	for _, k := range []uint{29, 30, 31, 32, 33, 34, 35, 36, 40, 52, 53, 62} {
+		p := int64(1) << k
+		out = append(out, p-1, p, p+1, -p-1, -p, -p+1, p+p/2, -p-p/2)
+	}
+	return out
+}()
+
 func genEndpoint(t *rapid.T, label string) endpoint {
 	switch rapid.IntRange(0, 9).Draw(t, label+"kind") {
 	case 0:
 		return endpoint{Unbounded: true}
-	case 1, 2: // extremes of the 64 bit range
+	case 1, 2: // extremes of the 64 bit range, and values around powers of two (where packed or narrowed representations break)
 		return endpoint{
-			Sec:   rapid.SampledFrom([]int64{math.MinInt64, math.MinInt64 + 1, -1, 0, 1, math.MaxInt64 - 1, math.MaxInt64, math.MaxInt32, math.MinInt32}).Draw(t, label+"sec"),
+			Sec:   rapid.SampledFrom(boundarySeconds).Draw(t, label+"sec"),
 			Nanos: rapid.SampledFrom([]int32{0, 1, 999999999}).Draw(t, label+"ns"),
 		}
 	case 3, 4, 5: // valid Timestamp range 0001-01-01 .. 9999-12-31
